@@ -278,13 +278,54 @@ func runC02(c *core.Ctx) {
 
 // ---- sequential part (Engine A): what is transmitted under n is what the store returns under n ----
 
-type c02SeqMon struct{ maxSeen int }
+type c02SeqMon struct {
+	conn         int
+	owed         []int // numbers handed out while logged on and not yet seen on the wire
+	prevLoggedOn bool
+}
 
-func (m *c02SeqMon) Key() string { return "" }
+func (m *c02SeqMon) Key() string { return fmt.Sprint("c02:", len(m.owed)) }
 func (m *c02SeqMon) Step(w *sessmc.World, e *sessmc.Event, obs []sessmc.Obs) (string, string) {
 	if w.Cfg.NoPersist {
 		return "", ""
 	}
+	if w.Conn != m.conn {
+		m.conn, m.owed = w.Conn, nil
+	}
+	// a number handed out while logged on must be transmitted before any later first-time number on that
+	// connection (a Logon drops the queue by design and restarts the account)
+	for _, o := range obs {
+		if o.K == "st" && o.Op == "Reset" {
+			m.owed = nil
+		}
+	}
+	if m.prevLoggedOn {
+		for _, o := range obs {
+			if o.K == "st" && (o.Op == "SaveIncrS" || o.Op == "IncrS") && o.Txt == "" {
+				m.owed = append(m.owed, o.S0)
+			}
+		}
+	}
+	for _, o := range obs {
+		if o.K != "out" || o.PossDup {
+			continue
+		}
+		if o.Type == "A" {
+			m.owed = nil
+			continue
+		}
+		keep := m.owed[:0]
+		for _, n := range m.owed {
+			if n < o.Seq {
+				return "C02/R3-number-skipped-on-the-wire type=" + o.Type, fmt.Sprintf("35=%s transmitted as number %d although number %d, handed out earlier while logged on, has not been transmitted", o.Type, o.Seq, n)
+			}
+			if n != o.Seq {
+				keep = append(keep, n)
+			}
+		}
+		m.owed = keep
+	}
+	defer func() { m.prevLoggedOn = w.VS.Snapshot().LoggedOn }()
 	lastReset := -1
 	for i, o := range obs {
 		if o.K == "st" && o.Op == "Reset" {
@@ -327,12 +368,26 @@ func init() {
 	variantDefs["C02/seq"] = func(cfg sessmc.Config) searchSpec {
 		alpha := []*sessmc.Event{sessmc.EvConnect(), sessmc.EvDisconnect(), sessmc.EvLogon(0, 0, ""), sessmc.EvLogon(0, 1, "Y"), sessmc.EvIn("D", 0, false), sessmc.EvIn("1", 0, false, fixscan.Field{Tag: 112, Value: "T"}),
 			sessmc.EvIn("D", 2, false), sessmc.EvIn("2", 0, false, fixscan.Field{Tag: 7, Value: "1"}, fixscan.Field{Tag: 16, Value: "0"}), sessmc.EvSend(), sessmc.EvFlush(),
-			sessmc.EvTimeout(quickfix.VerifNeedHeartbeat), sessmc.EvTimeout(quickfix.VerifPeerTimeout), sessmc.EvStop(), sessmc.EvIn("5", 0, false)}
+			sessmc.EvTimeout(quickfix.VerifNeedHeartbeat), sessmc.EvTimeout(quickfix.VerifPeerTimeout), sessmc.EvStop(), sessmc.EvIn("5", 0, false),
+			sessmc.EvWindowCloses(), sessmc.EvRestart()}
 		return searchSpec{cfg: cfg, alphabet: alpha, mons: func() []sessmc.Monitor { return []sessmc.Monitor{&c02SeqMon{}} }, variant: "C02/seq"}
 	}
 }
 
 func runC02Sequential(c *core.Ctx) {
+	// file store with engine restarts: what was transmitted before a restart must still be under its number
+	dir, cleanup := core.Scratch("c02seq")
+	defer cleanup()
+	for _, ini := range []bool{false, true} {
+		cfg := sessmc.Config{Initiator: ini, BeginString: "FIX.4.2", FileDir: dir, RefreshOnLogon: !ini}
+		sp := variantDefs["C02/seq"](cfg)
+		sp.depth = 5
+		if !c.Quick() {
+			sp.depth = 6
+		}
+		x := runSearch(c, sp)
+		c.AddCounter("sequential_states", x.States)
+	}
 	depth := 5
 	if !c.Quick() {
 		depth = 6
@@ -340,7 +395,7 @@ func runC02Sequential(c *core.Ctx) {
 	for _, ini := range []bool{false, true} {
 		for _, appReset := range []bool{false, true} {
 			for _, rl := range []bool{false, true} {
-				cfg := sessmc.Config{Initiator: ini, BeginString: "FIX.4.2", AppResetFlag: appReset, ResetOnLogon: rl, InitS: 5, InitT: 7, InitMsgs: []string{"A", "D", "0", "D"}}
+				cfg := sessmc.Config{Initiator: ini, BeginString: "FIX.4.2", AppResetFlag: appReset, ResetOnLogon: rl, InitS: 5, InitT: 7, InitMsgs: []string{"A", "D", "0", "D"}, SessionWindow: true}
 				sp := variantDefs["C02/seq"](cfg)
 				sp.depth = depth
 				x := runSearch(c, sp)
